@@ -388,13 +388,14 @@ def impl_numeric(case):
         a = ops[0]
         c = a.copy()
         before = _describe(W, c)
+        orig = denses[0].copy()
         for x in keep[0][0]:
             if x.size:
                 x.reshape(-1)[0] = x.reshape(-1)[0] + 1      # mutate the inputs behind `a`
         after = _describe(W, c)
         out["copy_independent"] = before == after
         snaps[0] = [x.tobytes() for x in keep[0][0]]
-        res, expected = c, denses[0]
+        res, expected = c, orig
     elif op == "add":
         res = sparse.add(ops[0], ops[1])
         expected = denses[0] + denses[1]
@@ -449,6 +450,29 @@ def impl_life(case):
     dtype, shape = case["dtype"], tuple(case["shape"])
     V, EXP, BORN, KIND, META = {}, {}, {}, {}, {}
     obs = []
+    import weakref
+    nplog = []          # (address, nbytes) of NumPy-owned buffers whose owner has died
+    tracked = set()
+
+    def track(arr):
+        """log the death of the ndarray that owns arr's memory (NumPy frees the buffer then)"""
+        owner = arr
+        while isinstance(owner.base, np.ndarray):
+            owner = owner.base
+        if owner.base is not None or id(owner) in tracked or not owner.flags["OWNDATA"]:
+            return
+        tracked.add(id(owner))
+        weakref.finalize(owner, nplog.append, (int(owner.__array_interface__["data"][0]), int(owner.nbytes)))
+
+    def track_held_by(storage):
+        """the ndarrays a storage keeps alive through _hold_ref (weakref.finalize registry)"""
+        for info in list(weakref.finalize._registry.values()):
+            try:
+                if info.weakref() is storage and info.args and hasattr(info.args[0], "value") \
+                        and isinstance(info.args[0].value, np.ndarray):
+                    track(info.args[0].value)
+            except Exception:  # noqa: BLE001
+                pass
     nbs = []
     seedc = [case["seed"]]
 
@@ -482,17 +506,22 @@ def impl_life(case):
         nb = 0
         if t == "np":
             seedc[0] += 1
-            V[ins[1]] = _make_dense(np, shape, dtype, seedc[0])
+            V[ins[1]] = _make_dense(np, shape, dtype, seedc[0]).copy()
+            track(V[ins[1]])
             KIND[ins[1]] = "np"
             EXP[ins[1]] = V[ins[1]].copy()
         elif t == "sps":
             seedc[0] += 1
             d = _make_dense(np, shape, dtype, seedc[0])
             V[ins[1]] = {"csr": sps.csr_array, "csc": sps.csc_array, "coo": sps.coo_array}[ins[2]](d)
+            for comp in comps(V[ins[1]]):
+                track(comp)
+            comp = None
             KIND[ins[1]] = "sps"
             EXP[ins[1]] = d.copy()
         elif t in ("asarray", "asarray_sps"):
             V[ins[1]] = sparse.asarray(V[ins[2]])
+            track_held_by(V[ins[1]]._storage)
             KIND[ins[1]] = "array"
             EXP[ins[1]] = EXP[ins[2]].copy()
         elif t == "op":
@@ -538,6 +567,7 @@ def impl_life(case):
             a = V[ins[2]]
             nb = len(a._storage._fields_)
             V[ins[1]] = a.copy()
+            track_held_by(V[ins[1]]._storage)
             KIND[ins[1]], EXP[ins[1]] = "array", EXP[ins[2]].copy()
         elif t == "del":
             V.pop(ins[1], None)
@@ -548,15 +578,19 @@ def impl_life(case):
         else:
             raise ValueError(t)
         if t != "del":
-            BORN[ins[1] if t not in ("op",) else ins[2]] = len(log)
+            BORN[ins[1] if t not in ("op",) else ins[2]] = (len(log), len(nplog))
         a = r = xs = arrs = None  # noqa: F841
         gc.collect()
         dang = False
         for name, k in KIND.items():
             if k in ("np", "sps", "arrays"):
                 for c in comps(V[name]):
-                    if c.size and int(c.__array_interface__["data"][0]) in log[BORN[name]:]:
+                    if not c.size:
+                        continue
+                    addr = int(c.__array_interface__["data"][0])
+                    if addr in log[BORN[name][0]:] or any(a0 <= addr < a0 + nb0 for a0, nb0 in nplog[BORN[name][1]:]):
                         dang = True
+                c = None
         ok = True
         if not dang:
             for name, k in list(KIND.items()):
@@ -590,6 +624,7 @@ def spec_variants(ndim, rng, widths=(64,)):
                 dict(kind="csf", ndim=2, pw=w, cw=w), dict(kind="csf", ndim=2, order=[1, 0], pw=w, cw=w)]
     if ndim >= 2:
         out.append(dict(kind="csf", ndim=ndim, pw=w, cw=w))
+        out.append(dict(kind="dense", ndim=ndim, order=list(reversed(range(ndim)))))      # "F" level order
     if ndim in (1, 3, 4):
         out.append(dict(kind="coo", ndim=ndim, pw=w, cw=w))
     return out
@@ -614,6 +649,8 @@ def numeric_cases(tier, rng):
                 for spec in spec_variants(nd, rng, (8, 16, 32, 64)):
                     if quick and rng.random() < 0.5 and spec["kind"] != "dense":
                         continue
+                    if dt == "float16" and spec["kind"].startswith("scipy_"):
+                        continue            # scipy.sparse has no float16
                     seed += 1
                     cases.append(dict(op="roundtrip", dtype=dt, operands=[shp(spec, shape)], seed=seed,
                                       copy=rng.choice([None, None, True, False])))
@@ -1072,6 +1109,8 @@ def campaign(build, tier, seed, report, budget=1):
                                                                   if k in ("result", "expected", "api_ok")}),
                       dict(case=lcases[len(lcases) // 3], impl=lres[len(lcases) // 3])]
     cov["branch_tags"] = dict(sorted(tags.items()))
+    if os.environ.get("VERIF_C20_DUMP"):
+        json.dump(viol, open(os.environ["VERIF_C20_DUMP"], "w"), default=str)
     cov["unproved_statements"] = [
         "values computed inside JIT-compiled MLIR modules (oracle; differential only)",
         "to_numpy order inversion is proved for ranks 1..4 by enumeration of the permutations (bound in the statement)",
